@@ -137,3 +137,7 @@ package xpair
 //@   ensures wasClosed ==> result == protocol.ErrClosed && !spawned("receiver") && !spawned("sender")
 //@
 // ---- end generated AddPipe contracts ----
+//@
+//@ func (*pipe).sender
+//@   loop 1 ensures evcount("sent") == at("loop1:head", evcount("sent"))
+//@   before call:Free#1 assert !isnil(err)
